@@ -133,6 +133,33 @@ pub fn verif_set_file_apply_gap_callback(f: fn()) {
     let _ = VERIF_FILE_APPLY_GAP.set(f);
 }
 
+/// Verification hook (compiled only with `--cfg d_engine_verif`; add-only, no behaviour change).
+///
+/// Crash points: the File state machine calls `verif_crash_point(name)` between its file operations
+/// (after the WAL append of `apply_chunk`, after the truncating open and after the write of
+/// `persist_data_async` / `persist_metadata_async`, after `clear_wal_async`). A harness registers a
+/// callback that images the data directory at a chosen point (= what a process crash at that point
+/// would leave on disk). Without a callback it does nothing.
+#[cfg(d_engine_verif)]
+static VERIF_FILE_CRASH_POINT: std::sync::OnceLock<fn(&'static str, &std::path::Path)> =
+    std::sync::OnceLock::new();
+
+/// Register the callback described at `VERIF_FILE_CRASH_POINT` (first registration wins).
+#[cfg(d_engine_verif)]
+pub fn verif_set_file_crash_point_callback(f: fn(&'static str, &std::path::Path)) {
+    let _ = VERIF_FILE_CRASH_POINT.set(f);
+}
+
+#[cfg(d_engine_verif)]
+fn verif_crash_point(
+    name: &'static str,
+    data_dir: &std::path::Path,
+) {
+    if let Some(f) = VERIF_FILE_CRASH_POINT.get() {
+        f(name, data_dir);
+    }
+}
+
 /// WAL operation codes for fixed-size encoding
 #[repr(u8)]
 #[derive(Debug, Clone, Copy, PartialEq, Eq)]
@@ -776,6 +803,8 @@ impl FileStateMachine {
             .truncate(true)
             .open(data_path)
             .await?;
+        #[cfg(d_engine_verif)]
+        verif_crash_point("persist_data:truncated", &self.data_dir);
 
         // Batch serialize into a single buffer — eliminates per-entry async yield overhead.
         // Mirrors append_to_wal's approach for consistent I/O pattern.
@@ -793,6 +822,8 @@ impl FileStateMachine {
 
         file.write_all(&buf).await?;
         file.flush().await?;
+        #[cfg(d_engine_verif)]
+        verif_crash_point("persist_data:written", &self.data_dir);
 
         Ok(())
     }
@@ -824,6 +855,8 @@ impl FileStateMachine {
             .truncate(true)
             .open(metadata_path)
             .await?;
+        #[cfg(d_engine_verif)]
+        verif_crash_point("persist_metadata:truncated", &self.data_dir);
 
         let index = self.last_applied_index.load(Ordering::SeqCst);
         let term = self.last_applied_term.load(Ordering::SeqCst);
@@ -832,6 +865,8 @@ impl FileStateMachine {
         file.write_all(&term.to_be_bytes()).await?;
 
         file.flush().await?;
+        #[cfg(d_engine_verif)]
+        verif_crash_point("persist_metadata:written", &self.data_dir);
         Ok(())
     }
 
@@ -862,6 +897,8 @@ impl FileStateMachine {
 
         file.set_len(0).await?;
         file.flush().await?;
+        #[cfg(d_engine_verif)]
+        verif_crash_point("clear_wal:done", &self.data_dir);
         Ok(())
     }
 
@@ -1200,6 +1237,8 @@ impl StateMachine for FileStateMachine {
                 OpenOptions::new().write(true).create(true).append(true).open(&wal_path).await?;
             file.write_all(&wal_buf).await?;
             file.flush().await?;
+            #[cfg(d_engine_verif)]
+            verif_crash_point("apply:wal-appended", &self.data_dir);
         }
 
         // PHASE 3: Fast in-memory updates with minimal lock time
